@@ -29,6 +29,14 @@ for line in open(log):
         out["findings"].append({"id": "C04-found:%s:%s" % (case, tr), "property": "C04", "law": law, "status": "open",
             "match": ['"%s","%s"' % (case, tr)],
             "what": "pure VLE of %s at T/Tc = %s is not found (%s)" % (case, tr, res.get("err"))})
+    elif law == "C04.found_at_pressure":
+        case, tr, res = inf[0], inf[1], inf[2]
+        key = (law, case, tr)
+        if key in seen: continue
+        seen.add(key)
+        out["findings"].append({"id": "C04-found-at-p:%s:%s" % (case, tr), "property": "C04", "law": law, "status": "open",
+            "match": ['"%s","%s"' % (case, tr)],
+            "what": "pure VLE of %s at the saturation pressure of T/Tc = %s (pressure specified, no initial state) is not found (%s) although the temperature-specified solve succeeds" % (case, tr, res.get("err"))})
     elif law == "C06.found":
         case, kind = inf[0], inf[1]
         key = (law, case, kind)
